@@ -181,7 +181,7 @@ pub fn run(id: &'static str, tier: Tier, seed: u64, replay: Option<&str>) -> i32
         )
             .boxed();
         if let Some((v, msg)) = run_lanes(strat, tier.pick(320, 6000), 200, seed ^ 0x51, env::threads(), synth_check) {
-            synth_fail = Some((crate::props::c15::MigCase { source: crate::props::c15::Source::Synth { version: v.0, data_blocks: 0, items: v.1, journal_items: v.2, plain_meta: false }, allow_ambiguous: v.3, dest: crate::props::c15::DestKind::Absent }, msg));
+            synth_fail = Some((crate::props::c15::MigCase { source: crate::props::c15::Source::Synth { version: v.0, data_blocks: 0, items: v.1, journal_items: v.2, plain_meta: false }, allow_ambiguous: v.3, dest: crate::props::c15::DestKind::Absent, touch_source: false }, msg));
         }
         env::wait_reaper();
     }
